@@ -99,7 +99,7 @@ Definition joint_case_ok (i : binput) : bool :=
   end.
 
 Lemma builder_ok_upto3 : forall_inputs 1 builder_case_ok && forall_inputs 2 builder_case_ok && forall_inputs 3 builder_case_ok = true.
-Proof. vm_compute. reflexivity. Qed.
+Proof. vm_cast_no_check (@eq_refl bool true). Qed.
 
 Lemma builder_case_ok_elim i b ss kl kr :
   builder_case_ok i = true -> prepared i = Some b -> build i = Built ss kl kr -> excluded b = false ->
@@ -190,7 +190,7 @@ Definition forall_joint_states (n : nat) (P : cluster -> region -> bool) : bool 
 
 Lemma leave_ok_upto3 :
   forall_joint_states 1 leave_case_ok && forall_joint_states 2 leave_case_ok && forall_joint_states 3 leave_case_ok = true.
-Proof. vm_compute. reflexivity. Qed.
+Proof. vm_cast_no_check (@eq_refl bool true). Qed.
 
 Lemma leave_joint_ok_bounded_pf :
   forall n, (1 <= n <= 3)%nat ->
@@ -215,6 +215,7 @@ Proof.
     - exact (G 1%nat H1 Hov Hlok).
     - exact (G 2%nat H2 Hov Hlok).
     - exact (G 3%nat H3 Hov Hlok). }
-  unfold leave_case_ok in Hc. destruct (leave_joint_op c r) as [ss kl kr| |]; try discriminate.
-  exists ss, kl, kr. auto.
+  unfold leave_case_ok in Hc. revert Hc. generalize (leave_joint_op c r) as o. generalize (leave_goal r) as g.
+  intros g o Hc. clear H1 H2 H3. destruct o as [ss kl kr| |]; [|discriminate Hc|discriminate Hc].
+  exists ss, kl, kr. split; [reflexivity|exact Hc].
 Qed.
